@@ -377,9 +377,13 @@ def evaluate__pow(self: XPathFunction, context: ta.ContextType = None) -> ta.One
         return math.copysign(float('inf'), x) if (y % 2) == 1 else float('inf')
 
     try:
-        return float(x ** y)
-    except TypeError:
+        return math.pow(x, y)  # an xs:double computation: <huge integer> ** <huge integer> never ends
+    except (TypeError, ValueError):
         return math.nan
+    except OverflowError:
+        if x < 0 and float(y).is_integer() and int(y) % 2:
+            return -math.inf
+        return math.inf
 
 
 @method(function('sqrt', prefix='math', nargs=1,
